@@ -25,7 +25,10 @@ CONFIG = dict(
              "by gnet.EncodeMessage under every 2-cut / byte-by-byte / random / 1024-byte chunking, spliced bad length prefixes, "
              "boundary lengths 3,4,5,max-1,max,max+1, garbage; and frames of all 12 kinds valid, truncated, extended, bit-flipped, "
              "with unknown and near-miss ids.",
-        note="readLoop's goroutines, the bufio reader and the 32-slot channel are not executed by the harness; the channel is modelled "
+        note="the real readLoop (bufio reader, readData, connection buffer, decodeData, hand-over to msgChan) is run on scripted "
+             "connections for well-formed streams of at most 30 frames (read sizes incl. multiples of 1024 and 4096 bytes, incomplete tails): "
+             "every fully received frame must have been handed over when the peer goes idle; frames handed out by decodeData are "
+             "looked at only when the slowest legal consumer of the 32-slot channel would see them. The channel overflow itself is modelled "
              "by queue_ok_iff (a burst is accepted iff it fits) which is the property's own proviso. Defect repaired while building: "
              "decodeData dropped complete frames when a read ended inside the next frame.",
         technique="Lean 4 proof (induction over the stream for all chunkings) + regenerated protocol tables + differential correspondence with the real framing and conversion functions",
